@@ -100,16 +100,18 @@ def register(claim):
         'DESIGN.md §3 C16')
 
   claim('C13', 'other',
-        'Static rule check on brax/io/mjcf.py deciding, for every MJCF document, the structure that '
-        'preserves geometry when jointless bodies are fused: the offset of children is skipped only '
-        'when both pos and quat of the fused body are the identity (normalised guard); _offset '
-        'writes pos and quat (or both fromto end points) from _transform_do with the parent pose; '
-        '_transform_do equals Transform composition (AVN polynomial identity); only jointless bodies '
-        'are fused, all their children re-parented, nested levels recursed; every load path fuses '
-        'before serialising/compiling.',
-        'Trusted: python ast, predicate normaliser, AVN normal form, ElementTree semantics.  Not '
-        'decided: masses/inertias recomputed by MuJoCo; orientation attributes other than quat.',
-        'guard-completeness predicate normalisation + def-use provenance + AVN law + path rules',
+        'Static check by abstract execution: mjcf._fuse_bodies (with _offset / _transform_do) is abstractly interpreted '
+        'from its AST on mock MJCF body trees whose poses are symbolic -- jointless bodies under the world, under a '
+        'jointed body and nested two deep, each with pos only / quat only / both / neither, holding geoms given by '
+        'pos+quat, pos or fromto, sites and jointed child bodies -- and every geom, site and jointed body is shown to '
+        'keep, relative to its nearest jointed ancestor, exactly the pose (from-to: both end points) MuJoCo gives it in '
+        'the original document, with no jointless body left; an identity in all pose parameters, decided by random '
+        'interpretation with unit quaternions by construction.  Plus: _transform_do is rigid-transform composition; '
+        'every load path fuses before serialising / compiling.  One known finding: non-normalised quat attributes '
+        '(legal MJCF) scale the fused offsets by |q|^2.',
+        'Trusted: python ast, AVN interpreter, the ElementTree mock (braxlint/xmlmock.py), MuJoCo normalises quat '
+        'attributes.  Not decided: masses / inertias recomputed by MuJoCo; orientation attributes other than quat.',
+        'abstract execution of the MJCF pre-processing on symbolic documents (random interpretation) + path rules',
         'DESIGN.md §3 C13')
 
   claim('C06', 'other',
